@@ -1,6 +1,7 @@
 package rules
 
 import (
+	"go/constant"
 	"fmt"
 	"go/token"
 	"go/types"
@@ -18,7 +19,7 @@ import (
 func init() {
 	Register(&Rule{
 		ID:    "R-DELEGATE",
-		Doc:   "each exported ascii.X is `return asm/ascii.X(params in order)` (callee object identity, argument positions, result unmodified); json's validAsciiPrint flag is set only under ascii.ValidPrint and appendToLower's fast path only under ascii.Valid",
+		Doc:   "each exported ascii.X over slices and strings is `return asm/ascii.X(params in order)` (callee object identity, argument positions, result unmodified); the four scalar predicates (ValidByte/Rune, ValidPrintByte/Rune) are evaluated, through the functions they call, at every byte value resp. every rune adjacent to a constant of their comparison chain and at the ends of the rune range, and must be true exactly on 0..0x7f resp. 0x20..0x7e; json's validAsciiPrint flag is set only under ascii.ValidPrint and appendToLower's fast path only under ascii.Valid",
 		Props: []string{"C20", "C05"},
 		Min:   map[string]int{"C20": 16, "C05": 2},
 		Run:   runDelegate,
@@ -48,6 +49,35 @@ func runDelegate(c *core.Ctx) []core.Obligation {
 			continue
 		}
 		pos := c.FuncPos(fn)
+		// the scalar predicates are decided exactly: the wrapper (and what it calls) only compares
+		// its argument with constants, so it is constant between consecutive constants; it is
+		// evaluated at every byte value, resp. at every rune around each constant and at the ends
+		// of the rune range, and must hold exactly on the defining interval
+		if def, isScalar := map[string][2]int64{"ValidByte": {0, 0x7f}, "ValidRune": {0, 0x7f}, "ValidPrintByte": {0x20, 0x7e}, "ValidPrintRune": {0x20, 0x7e}}[name]; isScalar && len(fn.Params) == 1 {
+			pts := scalarPoints(fn, strings.HasSuffix(name, "Byte"))
+			bad, und := "", ""
+			for _, v := range pts {
+				got, why := evalScalarPred(fn, v, 0)
+				if why != "" {
+					und = why
+					break
+				}
+				want := v >= def[0] && v <= def[1]
+				if got != want {
+					bad = fmt.Sprintf("%s(%d) is %v; the definition (%#x..%#x) says %v", key, v, got, def[0], def[1], want)
+					break
+				}
+			}
+			switch {
+			case und != "":
+				b.und(key, pos, key+" cannot be evaluated: "+und)
+			case bad != "":
+				b.bad(key, pos, bad+": the rune predicate disagrees with the byte predicate of the same name on values outside the byte range (negative runes are not ASCII)")
+			default:
+				b.ok(key, pos, fmt.Sprintf("evaluated at %d points (every constant of the comparison chain ±1, the ends of the domain): true exactly on %#x..%#x", len(pts), def[0], def[1]))
+			}
+			continue
+		}
 		// shape: one block, one call, return of its result
 		var calls []*ssa.Call
 		other := 0
@@ -184,4 +214,251 @@ func constantUint(k *types.Const) (uint64, bool) {
 	var v uint64
 	_, err := fmt.Sscan(s, &v)
 	return v, err == nil
+}
+
+// scalarPoints: the arguments at which a comparison-only predicate is evaluated.
+func scalarPoints(fn *ssa.Function, isByte bool) []int64 {
+	if isByte {
+		var out []int64
+		for v := int64(0); v < 256; v++ {
+			out = append(out, v)
+		}
+		return out
+	}
+	set := map[int64]bool{-2147483648: true, -2147483647: true, 2147483647: true, 2147483646: true, 0x10ffff: true, 0x110000: true}
+	for v := int64(-300); v <= 0x300; v++ {
+		set[v] = true
+	}
+	seen := map[*ssa.Function]bool{}
+	var visit func(f *ssa.Function, depth int)
+	visit = func(f *ssa.Function, depth int) {
+		if f == nil || seen[f] || depth > 4 || f.Blocks == nil {
+			return
+		}
+		seen[f] = true
+		for _, blk := range f.Blocks {
+			for _, in := range blk.Instrs {
+				for _, op := range in.Operands(nil) {
+					if k, ok := constInt(*op); ok {
+						for d := int64(-1); d <= 1; d++ {
+							if k+d >= -2147483648 && k+d <= 2147483647 {
+								set[k+d] = true
+							}
+						}
+					}
+				}
+				if ci, ok := in.(ssa.CallInstruction); ok {
+					visit(staticCallee(ci.Common()), depth+1)
+				}
+			}
+		}
+	}
+	visit(fn, 0)
+	var out []int64
+	for v := range set {
+		out = append(out, v)
+	}
+	sort.Slice(out, func(i, j int) bool { return out[i] < out[j] })
+	return out
+}
+
+// evalScalarPred evaluates a loop-free function of one integer argument that only converts it,
+// compares it with constants, combines booleans and calls functions of the same kind.
+func evalScalarPred(fn *ssa.Function, arg int64, depth int) (bool, string) {
+	if fn == nil || fn.Blocks == nil || depth > 4 || len(fn.Params) != 1 {
+		return false, "a callee without a body, or nested too deep"
+	}
+	wrap := func(v int64, t types.Type) int64 {
+		bt, ok := t.Underlying().(*types.Basic)
+		if !ok {
+			return v
+		}
+		switch bt.Kind() {
+		case types.Uint8:
+			return v & 0xff
+		case types.Int8:
+			return int64(int8(v))
+		case types.Uint16:
+			return v & 0xffff
+		case types.Int16:
+			return int64(int16(v))
+		case types.Uint32:
+			return v & 0xffffffff
+		case types.Int32:
+			return int64(int32(v))
+		}
+		return v
+	}
+	unsigned := func(t types.Type) bool {
+		bt, ok := t.Underlying().(*types.Basic)
+		return ok && bt.Info()&types.IsUnsigned != 0
+	}
+	env := map[ssa.Value]int64{fn.Params[0]: wrap(arg, fn.Params[0].Type())}
+	get := func(v ssa.Value) (int64, bool) {
+		if k, ok := v.(*ssa.Const); ok {
+			if k.Value == nil {
+				return 0, false
+			}
+			if k.Value.Kind() == constant.Bool {
+				if constant.BoolVal(k.Value) {
+					return 1, true
+				}
+				return 0, true
+			}
+			if n, ok := constInt(v); ok {
+				return n, true
+			}
+			return 0, false
+		}
+		x, ok := env[v]
+		return x, ok
+	}
+	blk := fn.Blocks[0]
+	var prev *ssa.BasicBlock
+	for steps := 0; steps < 200; steps++ {
+		var next *ssa.BasicBlock
+		for _, in := range blk.Instrs {
+			switch x := in.(type) {
+			case *ssa.DebugRef:
+			case *ssa.Phi:
+				for i, p := range blk.Preds {
+					if p == prev {
+						if v, ok := get(x.Edges[i]); ok {
+							env[x] = v
+						}
+					}
+				}
+			case *ssa.Convert:
+				v, ok := get(x.X)
+				if !ok {
+					return false, "a conversion of an unknown value"
+				}
+				env[x] = wrap(v, x.Type())
+			case *ssa.ChangeType:
+				if v, ok := get(x.X); ok {
+					env[x] = v
+				}
+			case *ssa.UnOp:
+				v, ok := get(x.X)
+				if !ok || x.Op != token.NOT {
+					return false, "an operation that is not a comparison (" + x.Op.String() + ")"
+				}
+				env[x] = 1 - v
+			case *ssa.BinOp:
+				a, ok1 := get(x.X)
+				bb, ok2 := get(x.Y)
+				if !ok1 || !ok2 {
+					return false, "an operand that is not derived from the argument or a constant"
+				}
+				us := unsigned(x.X.Type())
+				cmp := func() int {
+					if us {
+						ua, ub := uint64(a), uint64(bb)
+						switch {
+						case ua < ub:
+							return -1
+						case ua > ub:
+							return 1
+						}
+						return 0
+					}
+					switch {
+					case a < bb:
+						return -1
+					case a > bb:
+						return 1
+					}
+					return 0
+				}
+				r := int64(0)
+				switch x.Op {
+				case token.LSS:
+					if cmp() < 0 {
+						r = 1
+					}
+				case token.LEQ:
+					if cmp() <= 0 {
+						r = 1
+					}
+				case token.GTR:
+					if cmp() > 0 {
+						r = 1
+					}
+				case token.GEQ:
+					if cmp() >= 0 {
+						r = 1
+					}
+				case token.EQL:
+					if a == bb {
+						r = 1
+					}
+				case token.NEQ:
+					if a != bb {
+						r = 1
+					}
+				case token.SUB:
+					r = wrap(a-bb, x.Type())
+				case token.ADD:
+					r = wrap(a+bb, x.Type())
+				case token.AND:
+					r = a & bb
+				case token.OR:
+					r = a | bb
+				case token.XOR:
+					r = wrap(a^bb, x.Type())
+				default:
+					return false, "an operation outside comparisons and offsets (" + x.Op.String() + ")"
+				}
+				env[x] = r
+			case *ssa.Call:
+				callee := staticCallee(x.Common())
+				if callee == nil || len(x.Common().Args) != 1 {
+					return false, "a call that is not a static call of a one-argument predicate"
+				}
+				a, ok := get(x.Common().Args[0])
+				if !ok {
+					return false, "a call on an unknown value"
+				}
+				r, why := evalScalarPred(callee, a, depth+1)
+				if why != "" {
+					return false, why
+				}
+				if r {
+					env[x] = 1
+				} else {
+					env[x] = 0
+				}
+			case *ssa.If:
+				v, ok := get(x.Cond)
+				if !ok {
+					return false, "a branch on an unknown value"
+				}
+				prev = blk
+				if v != 0 {
+					next = blk.Succs[0]
+				} else {
+					next = blk.Succs[1]
+				}
+			case *ssa.Jump:
+				prev = blk
+				next = blk.Succs[0]
+			case *ssa.Return:
+				if len(x.Results) != 1 {
+					return false, "unexpected result arity"
+				}
+				v, ok := get(x.Results[0])
+				if !ok {
+					return false, "the result is not derived from the argument"
+				}
+				return v != 0, ""
+			default:
+				return false, fmt.Sprintf("an instruction outside the comparison fragment (%T)", in)
+			}
+		}
+		if next == nil {
+			return false, "evaluation fell off a block"
+		}
+		blk = next
+	}
+	return false, "evaluation did not terminate"
 }
